@@ -1,3 +1,17 @@
+META = dict(
+    title='Query answers are a pure function of the input file and the query',
+    technique='CBMC code contracts (DFCC) on C extracted mechanically from the real C++ (clang AST), loop invariants, ghost layout tables',
+    level_text='Proof, per function and for all argument values within the stated object-size bounds, that (a) the announced '
+               'size equals the sum of block widths, (b) the 2D entry point returns the 3D answer slot for slot (velocity blocks '
+               'projected), walking the request with the same layout as the 3D evaluator. A failing obligation is replayed on the '
+               'real library (batched vs stand-alone, bit for bit).',
+    level_note='Trusted: clang AST + cxx2c translator, shims for std::vector/array, CBMC and SAT back ends, the assumed interface '
+               'contract of callees listed in the evidence (coordinate-system virtuals). Bounds are on request length / grains, not on iterations.',
+    scope='properties_output_size (sum of widths, frame); 2D wrapper: stride == layout of the 3D answer, slots outside velocity blocks bit-identical, one 3D evaluation',
+    not_covered=['the inside of temperature/composition/grains models and of distance_point_from_curved_planes beyond their frame',
+                 'independence from other worlds alive in the process beyond the absence of writable globals in the translated query path'],
+    enforced_elsewhere={},
+)
 WORLD_CC = 'source/world_builder/world.cc'
 ALIASES = {
     'WorldBuilder::World::properties|std::array<double, 3>': 'World_properties_3d',
@@ -33,3 +47,100 @@ UNITS = [
                       '__CPROVER_decreases(wb_r1->n - wb_i1)',
              pre='g_proj = E_add_mul_a_a_mul_a_a(this_->surface_coord_conversions.point.e[0], g_v0, this_->surface_coord_conversions.point.e[1], g_v1);')}),
 ]
+
+
+# ----------------------------------------------------------------------------- native replay oracle
+import os, random, sys
+sys.path.insert(0, os.path.join(os.path.dirname(os.path.abspath(__file__)), '..', 'lib'))
+
+WORLD = """{
+  "version":"1.1", "cross section":[[0,0],[100e3,50e3]], "coordinate system":{"model":"cartesian"},
+  "gravity model":{"model":"uniform", "magnitude":10}, %(extra)s
+  "features":[
+    {"model":"continental plate", "name":"A", "max depth":250e3, "coordinates":[[-1e6,-1e6],[1e6,-1e6],[1e6,1e6],[-1e6,1e6]],
+     "temperature models":[{"model":"uniform", "temperature":1000}],
+     "composition models":[{"model":"uniform", "compositions":[0,1], "fractions":[0.25,0.75]}],
+     "grains models":[{"model":"uniform", "compositions":[0,1],
+        "rotation matrices":[[[11,21,31],[41,51,61],[71,81,91]],[[101,111,121],[131,141,151],[161,171,181]]], "grain sizes":[0.3,0.7]}],
+     "velocity models":[{"model":"uniform raw", "velocity":[1,2,3]}]},
+    {"model":"mantle layer", "name":"B", "min depth":250e3, "max depth":660e3, "coordinates":[[-1e6,-1e6],[1e6,-1e6],[1e6,1e6],[-1e6,1e6]],
+     "temperature models":[{"model":"adiabatic"}], "composition models":[{"model":"uniform", "compositions":[2]}]}
+  ]}"""
+
+
+def width(p):
+    return 10 * p[2] if p[0] == 3 else 3 if p[0] == 5 else 1
+
+
+def check_request(q, req, x, z, depth, y_of_x=None):
+    """property-level oracle of C01: every block of the batched 2D (and 3D) answer is bit-identical to the stand-alone
+    query of that entry, the number of values is the announced one."""
+    import oracle
+    out = []
+    for kind, pt in (('p2', '%r %r' % (x, z)), ('p3', '%r %r %r' % (x * 0.8944271909999159, x * 0.4472135954999579, z))):
+        st, full = q.ask('%s %s %r %s' % (kind, pt, depth, oracle.props_arg(req)))
+        if st != 'OK':
+            return dict(status='holds', detail='batched query answered %s %s' % (st, full))
+        st2, size = q.ask('size ' + oracle.props_arg(req))
+        if st2 == 'OK' and int(size[0]) != len(full):
+            return dict(status='violated', detail='%s returned %d values, properties_output_size announces %s for %s' % (kind, len(full), size[0], req))
+        off = 0
+        for k, p in enumerate(req):
+            st3, alone = q.ask('%s %s %r %s' % (kind, pt, depth, oracle.props_arg([p])))
+            w = width(p)
+            blk = full[off:off + w]
+            if st3 == 'OK' and [oracle.bits(v) for v in blk] != [oracle.bits(v) for v in alone]:
+                return dict(status='violated', request=req, entry=k, interface=kind,
+                            detail='block %d of the batched %s answer for request %s at depth %r is %s, the stand-alone query of %s answers %s'
+                                   % (k, kind, req, depth, [float.fromhex(v) for v in blk], p, [float.fromhex(v) for v in alone]))
+            off += w
+    return dict(status='holds')
+
+
+def native_oracle(witness, work, search_seed=None):
+    import oracle
+    extra = witness.get('world_extra', '')
+    q = oracle.Q(WORLD % dict(extra=extra), work)
+    try:
+        if q.construct_error:
+            return dict(status='error', detail=q.construct_error)
+        reqs = [witness['request']] if witness.get('request') else []
+        depth = witness.get('depth', 10e3)
+        for r in reqs:
+            res = check_request(q, r, 30e3, 990e3, depth)
+            if res['status'] == 'violated':
+                return res
+        if search_seed is not None:
+            rnd = random.Random(search_seed)
+            for i in range(150):
+                n = rnd.randint(1, 4)
+                r = []
+                for _ in range(n):
+                    t = rnd.choice([1, 2, 3, 3, 4, 5, 5])
+                    r.append([t, rnd.randint(0, 2), rnd.randint(0, 3) if t == 3 else 0])
+                d = rnd.choice([0.0, 10e3, 100e3, 300e3, 700e3])
+                res = check_request(q, r, rnd.uniform(-50e3, 50e3), 1000e3 - d, d)
+                if res['status'] == 'violated':
+                    res['found_by'] = 'seeded native search (seed %d, try %d)' % (search_seed, i)
+                    return res
+        return dict(status='holds', detail='oracle holds on the witness%s' % (' and on 150 random requests' if search_seed is not None else ''))
+    finally:
+        q.close()
+
+
+def witness_from_trace(unit, failure, seed):
+    t = failure.get('trace') or {}
+    def num(k, dflt):
+        v = t.get(k)
+        if v is None:
+            return dflt
+        try:
+            return int(str(v).rstrip('ul'))
+        except ValueError:
+            return dflt
+    e = [num('property.e[0]', 3), num('property.e[1]', 0), num('property.e[2]', 2)]
+    if not (1 <= e[0] <= 5):
+        e[0] = 3
+    e[1] = e[1] % 3
+    e[2] = e[2] % 4 if e[0] == 3 else 0
+    return dict(request=[e, [5, 0, 0]], from_counterexample='loop-state entry property=%s embedded in a two-entry request' % e)
